@@ -18,7 +18,7 @@ from vf.common import Check, short
 
 X = ('f', 'x')
 XS = ('f', 'xs')
-REF_KINDS = ('direct', 'qbody', 'qdomain', 'qunused', 'nested', 'qplain', 'qfree', 'qfree2', 'call4', 'qcall4')
+REF_KINDS = ('direct', 'qbody', 'qdomain', 'qunused', 'nested', 'qplain', 'qfree', 'qfree2', 'call4', 'qcall4', 'idxfield', 'nested2')
 ROUTES = ('callbacks', 'ctor', 'but_pattern', 'but_both', 'but_event')
 
 
@@ -41,6 +41,10 @@ def pred_for(kind: str, r, v, w):
         return ('bin', '>', ('call', 'max', X, ('lit', 1), ('lit', 2), ('fa', ('var', r), 'x')), ('lit', 0))
     if kind == 'qcall4':  # the quantified variable's only use is the 4th argument
         return ('bin', 'and', ('q', 'forall', v, XS, ('bin', '>', ('call', 'min', X, ('lit', 1), ('lit', 2), ('var', v)), ('lit', 0))), ('bin', '>', X, ('fa', ('var', r), 'x')))
+    if kind == 'idxfield':  # the reference sits inside an index that is FOLLOWED by a field access (not the last accessor of its chain)
+        return ('bin', '>', ('fa', ('idx', ('f', 'ms'), ('fa', ('var', r), 'i')), 'z'), ('lit', 0))
+    if kind == 'nested2':  # a nested quantifier that comes AFTER a use of the outer variable (w may coincide with v: must be rejected)
+        return ('q', 'forall', v, XS, ('bin', 'and', ('bin', '>', ('var', v), ('fa', ('var', r), 'x')), ('q', 'exists', w, ('f', 'ys'), ('bin', '<', ('var', w), ('lit', 3)))))
     if kind == 'qplain':
         return ('q', 'forall', v, XS, ('bin', '>', ('var', v), ('lit', 0)))
     raise ValueError(kind)
@@ -269,7 +273,7 @@ def main() -> int:
             ck.sample({'shape': {k: shape[k] for k in ('scope', 'pattern', 'widths', 'alias_slots', 'ref_slots', 'kinds')}, 'route': route, 'paths': r['paths']})
     ck.engine('SP', shapes=nshapes, paths=paths, wall_s=round(time.time() - t0, 1))
     ck.bound('shapes', f'{nshapes}: 4 scopes x 5 patterns x (one position of width 2' + (', or 3, or two of width 2' if ck.tier == 'thorough' else '') + ') x <= 2 aliased alternatives x <= '
-             + ('2' if ck.tier == 'thorough' else '1') + ' referencing alternatives x 10 reference placements (direct, quantifier body, quantifier domain, unused variable, nested quantifier, plain quantifier, quantifier next to a free reference, index-only reference, 4th argument of a variadic call, the same under a quantifier); one position of width 3 with aliases on its alternatives x 5 construction routes (parser callbacks, public constructors, but() on patterns, but() on both, but() on the alternatives of a disjunction that has already been sanity-checked)')
+             + ('2' if ck.tier == 'thorough' else '1') + ' referencing alternatives x 12 reference placements (reference inside an index followed by a field access, nested quantifier after a use of the outer variable, direct, quantifier body, quantifier domain, unused variable, nested quantifier, plain quantifier, quantifier next to a free reference, index-only reference, 4th argument of a variadic call, the same under a quantifier); one position of width 3 with aliases on its alternatives x 5 construction routes (parser callbacks, public constructors, but() on patterns, but() on both, but() on the alternatives of a disjunction that has already been sanity-checked)')
     ck.bound('names', 'ALL alias / reference / variable / channel names symbolic: every equality pattern between them (unbounded name space)')
     ck.coverage['evaluations'] = paths
     ck.coverage['distinct_nontrivial'] = nshapes
